@@ -14,12 +14,12 @@ MANIFEST_META = {
         "guard": "verif",
         "enable": "go test -c -tags verif in /verif/harness (module verifharness, replace github.com/benbjohnson/litestream => /repo)",
         "baseline_off_cmd": "/verif/tools/baseline.sh",
-        "source_commits": ["18eadf4", "6fb4a7e", "c6fb1fc", "0835903"],
+        "source_commits": ["18eadf4", "6fb4a7e", "c6fb1fc", "0835903", "8688370"],
         "add_only": True,
     },
     "not_applicable": {},
     "pending_reason": "check not built yet in this session (see DESIGN.md section 4 for the planned generated-input check); not claimed until it runs silently on the unchanged tree",
-    "notes": "Hook commits in /repo: 18eadf4 (WALReader.VerifPageMap), 6fb4a7e (VFSFile.VerifPoll), c6fb1fc (verifPhase: phase hook points in the sync/checkpoint/snapshot/close pipeline; an empty function without the verif tag), 0835903 (one more hook point before the PASSIVE checkpoint barrier). Genuine defects found by the checks were repaired with separate fix: commits in /repo (listed as fixed: lines in known_findings.txt); defects recorded rather than repaired are the finding: lines there. See DESIGN.md sections 9-11.",
+    "notes": "Hook commits in /repo: 18eadf4 (WALReader.VerifPageMap), 6fb4a7e (VFSFile.VerifPoll), c6fb1fc (verifPhase: phase hook points in the sync/checkpoint/snapshot/close pipeline; an empty function without the verif tag), 0835903 (one more hook point before the PASSIVE checkpoint barrier), 8688370 (hook point between a snapshot's position and its reader). Genuine defects found by the checks were repaired with separate fix: commits in /repo (listed as fixed: lines in known_findings.txt); defects recorded rather than repaired are the finding: lines there. See DESIGN.md sections 9-11.",
 }
 
 PROPS = {
